@@ -92,6 +92,17 @@ proof!(12, fn c19_domain_isolation() {
     // (iii) a different root never matches, whatever the prefix
     let other_root = mk_cfg(&p1[..n1], b".s", b"/q");
     assert!(other_root.extract_name_from_path(&fp).is_none(), "c19: a domain with a different root sees this file");
+    // nested roots: one root being a string prefix of the other must not leak in either direction
+    let nested = mk_cfg(&p1[..n1], b".s", b"/r/i");
+    assert!(nested.extract_name_from_path(&fp).is_none(), "c19: a domain rooted below this one sees this file");
+    let fp_nested = nested.path_for(&name);
+    assert!(cfg1.extract_name_from_path(&fp_nested).is_none(), "c19: a domain sees a file created under a nested root");
+    let sibling = mk_cfg(&p1[..n1], b".s", b"/rr");
+    assert!(sibling.extract_name_from_path(&fp).is_none() && cfg1.extract_name_from_path(&sibling.path_for(&name)).is_none(),
+        "c19: roots that are string prefixes of one another are not separated");
+    // an equivalent spelling of the same root is the same domain
+    let same = mk_cfg(&p1[..n1], b".s", b"/r/");
+    assert!(same.extract_name_from_path(&fp).is_some(), "c19: an equivalent spelling of the root lost its own file");
     // a different suffix never matches
     let other_suffix = mk_cfg(&p1[..n1], b".t", b"/r");
     assert!(other_suffix.extract_name_from_file(&file).is_none(), "c19: a domain with a different suffix sees this file");
